@@ -4,10 +4,11 @@ import (
 	"fmt"
 	"runtime"
 	"testing"
+	"time"
 )
 
 // deep: reduced alphabet (2 clients x {DISCOVER, REQUEST selecting, REQUEST renew via ciaddr, RELEASE, DECLINE}
-// + A:{REQUEST foreign, REQUEST gateway} + {lease+1ns, cleanup tick} = 14 symbols).
+// + A:{REQUEST foreign, REQUEST gateway, DECLINE foreign} + {lease+1ns, cleanup tick} = 15 symbols).
 func v4DeepConfigs() []v4cfg {
 	return []v4cfg{
 		{name: "29-direct-core", cidr: "10.0.0.0/29", gateway: "10.0.0.1", clients: 2, hostile: 1, core: true, transport: []string{"direct"}},
@@ -15,7 +16,16 @@ func v4DeepConfigs() []v4cfg {
 	}
 }
 
-// wide: the full alphabet (25 symbols for 2 clients), shallower.
+// dr: the decline / release alphabet (2 clients x {DISCOVER, REQUEST selecting, RELEASE, DECLINE} + A:{DECLINE and
+// RELEASE naming an address leased / offered to B, DECLINE of a free address, REQUEST init-reboot / selecting /
+// renew naming B's address} + pool cycle (DISCOVER+REQUEST, then RELEASE) + cleanup tick = 18 symbols), as deep as core.
+func v4DRConfigs() []v4cfg {
+	return []v4cfg{
+		{name: "29-direct-dr", cidr: "10.0.0.0/29", gateway: "10.0.0.1", clients: 2, hostile: 1, focus: "dr", transport: []string{"direct"}},
+	}
+}
+
+// wide: the full alphabet (35 symbols for 2 clients), shallower.
 func v4WideConfigs() []v4cfg {
 	return []v4cfg{
 		{name: "29-relay82-wide", cidr: "10.0.0.0/29", gateway: "10.0.0.1", clients: 2, hostile: 1, transport: []string{"relay82"}},
@@ -36,11 +46,21 @@ func TestV4Exhaustive(t *testing.T) {
 	deep, wide := run.Pick(5, 6), run.Pick(3, 4)
 	capLvl := run.Pick(1500, 6000)
 	for _, cfg := range v4DeepConfigs() {
+		t0 := time.Now()
 		st := bfs(t, v4factory(cfg), deep, capLvl)
+		t.Logf("bfs %s took %v executed=%d", cfg.name, time.Since(t0), st.executed)
+		run.Extra("bfs_v4_"+cfg.name, fmt.Sprintf("depth=%d executed=%d applicable=%d distinct_states=%d", deep, st.executed, st.applicable, st.states))
+	}
+	for _, cfg := range v4DRConfigs() {
+		t0 := time.Now()
+		st := bfs(t, v4factory(cfg), deep, capLvl)
+		t.Logf("bfs %s took %v executed=%d", cfg.name, time.Since(t0), st.executed)
 		run.Extra("bfs_v4_"+cfg.name, fmt.Sprintf("depth=%d executed=%d applicable=%d distinct_states=%d", deep, st.executed, st.applicable, st.states))
 	}
 	for _, cfg := range v4WideConfigs() {
+		t0 := time.Now()
 		st := bfs(t, v4factory(cfg), wide, capLvl)
+		t.Logf("bfs %s took %v executed=%d", cfg.name, time.Since(t0), st.executed)
 		run.Extra("bfs_v4_"+cfg.name, fmt.Sprintf("depth=%d executed=%d applicable=%d distinct_states=%d", wide, st.executed, st.applicable, st.states))
 	}
 	run.Extra("bfs_depth_core_alphabet", deep)
@@ -54,18 +74,36 @@ func TestV4RandomWalks(t *testing.T) {
 	}
 }
 
-// deep: 2 clients x {SOLICIT, SOLICIT+rapid-commit, REQUEST, RENEW, RELEASE, DECLINE} + {valid/2, valid+1ns} = 14 symbols.
+// deep: 2 clients x {SOLICIT, SOLICIT+rapid-commit, REQUEST, RENEW, RELEASE, DECLINE} + A:{DECLINE naming B's address}
+// + {valid/2, valid+1ns} = 15 symbols (12 for the prefix-only pool: a Decline names addresses only).
 func v6DeepConfigs() []v6cfg {
 	return []v6cfg{
-		{name: "na126-core", addrPool: "2001:db8:1::/126", mode: "na", clients: 2, core: true},
-		{name: "pd4-core", pdPool: "2001:db8:100::/46", pdLen: 48, mode: "pd", clients: 2, core: true},
+		{name: "na126-core", addrPool: "2001:db8:1::/126", mode: "na", clients: 2, hostile: 1, core: true},
+		{name: "pd4-core", pdPool: "2001:db8:100::/46", pdLen: 48, mode: "pd", clients: 2, hostile: 1, core: true},
 	}
 }
 
-// wide: adds REBIND, CONFIRM, REQUEST with a wrong server-id, RENEW naming the other client's value; IA_NA and IA_PD together.
+// wide: adds REBIND, CONFIRM, REQUEST with a wrong server-id, RENEW naming the other client's value; IA_NA and IA_PD together
+// (without the decline / release / pool-cycling symbols, which dr and full carry).
 func v6WideConfigs() []v6cfg {
 	return []v6cfg{
-		{name: "both-wide", addrPool: "2001:db8:1::/126", pdPool: "2001:db8:100::/47", pdLen: 48, mode: "both", clients: 2, hostile: 1},
+		{name: "both-wide", addrPool: "2001:db8:1::/126", pdPool: "2001:db8:100::/47", pdLen: 48, mode: "both", clients: 2, hostile: 1, legacy: true},
+	}
+}
+
+// dr: 2 clients x {SOLICIT, REQUEST, RELEASE, DECLINE} + A:{DECLINE naming an address leased / advertised to B or free, RELEASE
+// naming B's leased / advertised values or the own values under unknown IAIDs, REQUEST naming B's values} + pool cycles
+// {SOLICIT+REQUEST, rapid commit} + valid+1ns = 18 symbols, as deep as wide; full: every symbol (wide + dr + DECLINE / RELEASE
+// naming free and out-of-pool values or unknown IAIDs), one level less.
+func v6DRConfigs() []v6cfg {
+	return []v6cfg{
+		{name: "both-dr", addrPool: "2001:db8:1::/126", pdPool: "2001:db8:100::/47", pdLen: 48, mode: "both", clients: 2, hostile: 1, focus: "dr"},
+	}
+}
+
+func v6FullConfigs() []v6cfg {
+	return []v6cfg{
+		{name: "both-full", addrPool: "2001:db8:1::/126", pdPool: "2001:db8:100::/47", pdLen: 48, mode: "both", clients: 2, hostile: 1},
 	}
 }
 
@@ -89,12 +127,24 @@ func TestV6Exhaustive(t *testing.T) {
 	deep, wide := run.Pick(5, 6), run.Pick(3, 4)
 	capLvl := run.Pick(1500, 6000)
 	for _, cfg := range v6DeepConfigs() {
+		t0 := time.Now()
 		st := bfs(t, v6factory(cfg), deep, capLvl)
+		t.Logf("bfs %s took %v executed=%d", cfg.name, time.Since(t0), st.executed)
 		run.Extra("bfs_v6_"+cfg.name, fmt.Sprintf("depth=%d executed=%d applicable=%d distinct_states=%d", deep, st.executed, st.applicable, st.states))
 	}
-	for _, cfg := range v6WideConfigs() {
-		st := bfs(t, v6factory(cfg), wide+1, capLvl) // the DHCPv6 state space is smaller: one level deeper
-		run.Extra("bfs_v6_"+cfg.name, fmt.Sprintf("depth=%d executed=%d applicable=%d distinct_states=%d", wide+1, st.executed, st.applicable, st.states))
+	for _, cfgs := range [][]v6cfg{v6WideConfigs(), v6DRConfigs()} {
+		for _, cfg := range cfgs {
+			t0 := time.Now()
+			st := bfs(t, v6factory(cfg), wide+1, capLvl) // the DHCPv6 state space is smaller: one level deeper
+			t.Logf("bfs %s took %v executed=%d", cfg.name, time.Since(t0), st.executed)
+			run.Extra("bfs_v6_"+cfg.name, fmt.Sprintf("depth=%d executed=%d applicable=%d distinct_states=%d", wide+1, st.executed, st.applicable, st.states))
+		}
+	}
+	for _, cfg := range v6FullConfigs() {
+		t0 := time.Now()
+		st := bfs(t, v6factory(cfg), wide, capLvl)
+		t.Logf("bfs %s took %v executed=%d", cfg.name, time.Since(t0), st.executed)
+		run.Extra("bfs_v6_"+cfg.name, fmt.Sprintf("depth=%d executed=%d applicable=%d distinct_states=%d", wide, st.executed, st.applicable, st.states))
 	}
 }
 
